@@ -16,8 +16,8 @@ CLAIMS = {
          "scope: executions in which no callee panics (recover() is modelled as an arbitrary value; what a panic inside Read/Process skips is not modelled, so the 'never crashes / never wedged' half of C11 and design findings F5/F13 are not decided); verified: Request.Read and Request.Process (string splitting and number parsing opaque; storage client through assumed interface-method contracts); assumed: Response.Write (a reply is >= 1 byte, nothing for noreply), token limiter, bufio.Writer as a ghost byte stream with a flushed prefix. Not covered: syntactic validity of replies, byte-exact value transfer, request/response round trip (string formats are opaque to the verifier), ordering across pipelined commands beyond 'flushed before the next read'"),
  "C12": ("per-call contribution contracts of the buffer counters: ResourceLimiter arithmetic, CArray alloc/free/copy, TryCompress/Decompress/Copy allocation balance, readRecordAt and the scanner, Bucket.get (a returned payload is charged exactly once, nothing else), Bucket.incr and HStore.Incr (GetData returns to its old value), Bucket.set (SetData -> FlushData move)",
          "not under contract: request tokens, Response.CleanBuffer, dataChunk.flush; AppendRecord/GetRecordByPos accounting clauses are assumed (read off the code); counters are treated sequentially (atomics as plain adds); environment failures (refused allocation) are outside the clauses"),
- "C13": ("hint buffer: representation invariant preserved, whole-view postcondition (every other (hash,key) pair reads back unchanged, a refused Set changes nothing), Set/Get composition lemmas; collision table compareAndSet/get whole-view postconditions (newest position wins unless GC relocates; other entries untouched); merge writer reports every member of a same-hash group",
-         "not under contract: Bucket.get's collision branch (verified only in the no-collision scope), GC's use of collision information, restart (tombstone replay, design finding F11 not re-derived)"),
+ "C13": ("hint buffer: representation invariant preserved, whole-view postcondition (every other (hash,key) pair reads back unchanged, a refused Set changes nothing), Set/Get composition lemmas; collision table compareAndSet/get whole-view postconditions (newest position wins unless GC relocates; other entries untouched); merge writer reports every member of a same-hash group; merge order (which entry of one key survives); collision branch of Bucket.get as a variant contract (body only): the colliding key's record is read at the position the hint index reports, every call on the branch meets its callee's precondition",
+         "not proved: that the record at the reported position is the wanted key's (log view not connected to the hint index; getItem assumed); GC's use of collision information, restart (tombstone replay, design finding F11 not re-derived)"),
  "C14": ("hint file header and item codec (writer appends exactly the item encoding, reader decodes the item at its offset), lookup uses the reader in sync with its logical offset and returns only an item with exactly the wanted (hash,key), comparison orders (byKeyHash, mergeHeap, Position.CmpKey monotone), merge writer flush",
          "not under contract: HintBuffer.Dump ordering, index-row well-formedness and completeness of get (item found iff present), merge() main loop, mergeWriter.write (contract exists, one conjunct at the solver limit, not in the check); sort/heap are library contracts"),
  "C15": ("path digits, bucket id = leading digits, InitTree derived configuration for 1/16/256 buckets, path parsing; every depth 0..2 enumerated; HStore.Get/Incr route to exactly the bucket named by the leading digits and a bucket that is not READY answers a miss and touches nothing; upper-level listing: updateNodesUpper gives the node of a bucket the bucket's root iff the bucket is served (else zero), ListUpper reports the 16 children of the node named by the path (variant contract, body only)",
